@@ -1,4 +1,5 @@
 import Fdo.Drv.Cbor
+import Fdo.Drv.Rv
 /-
 Line-protocol driver: one operation per input line, one reply per output line.
 Imports model modules only (no proofs, no Mathlib) so that it links as a `lean_exe`.
@@ -12,6 +13,7 @@ def dispatch (line : String) : String :=
   | cmd :: args =>
     let r :=
       if cmd.startsWith "cbor." then Drv.Cbor.handle cmd args
+      else if cmd.startsWith "rv." then Drv.Rv.handle cmd args
       else none
     r.getD "bad-op"
 
